@@ -439,10 +439,10 @@ class Ghost:
 
         return await_value(self, v, node)
 
-    def cut_loop(self, node, env, spec):
+    def cut_loop(self, node, env, spec, it=None):
         from .loopcut import cut_loop
 
-        return cut_loop(self.I, node, env, spec)
+        return cut_loop(self.I, node, env, spec, it)
 
     # ================================================================== harness API
     def _name(self, args, kwargs, default):
